@@ -17,6 +17,19 @@ THEOREMS = [
     "ProbLogProofs.C01.C01_worlds_total_weight",
 ]
 
+MODULE_SEM = "ProbLogProofs.Properties.C01Sem"
+THEOREMS_SEM = [
+    "ProbLogProofs.C01.C01_worlds_weight_sum",
+    "ProbLogProofs.C01.C01_worlds_count",
+    "ProbLogProofs.C01.C01_gamma_fixpoint",
+    "ProbLogProofs.C01.C01_gamma_closed",
+    "ProbLogProofs.C01.C01_gamma_least",
+    "ProbLogProofs.C01.C01_gamma_least_below",
+    "ProbLogProofs.C01.C01_relevant_iff_reach",
+    "ProbLogProofs.C01.C01_wfm_fixpoint",
+    "ProbLogProofs.C01.C01_wfm_two_valued_definite",
+]
+
 MANIFEST = {
     "level": "proof",
     "technique": "Lean 4 specification of the distribution semantics (world enumeration + well-founded model) executed "
@@ -162,6 +175,7 @@ def run(ctx):
                 "world, 6% arbitrary evidence); distinct = distinct source text; non-trivial = ground program has a "
                 "compound node and at least one probabilistic choice")
     ctx.proof_phase(MODULE, THEOREMS)
+    ctx.proof_phase(MODULE_SEM, THEOREMS_SEM, refutations=["ProbLogProofs.C01.C01_worklist_fuel_insufficient"])
     drv = ctx.driver("Drivers.Spine")
     if drv is None:
         return ctx.finish("proof")
